@@ -9,7 +9,7 @@
 // newest entry, the two replacement candidates, a fresh node, the two nodes of the other bucket,
 // self). States are de-duplicated on a canonical rendering of the table's private state (export
 // file hooks/p2p/discover/dht/zz_verif_c34.go). A state is always reached by replaying its whole
-// history on a fresh table with the real functions (no snapshots are restored).
+// history on a fresh table with the real functions (no snapshots are restored; see expand).
 //
 // Invariants (= the statement, evaluated independently of the code's helpers): every bucket has at
 // most 16 entries, pairwise distinct IDs, each at the bucket's log-distance (own sha3 + own
@@ -170,14 +170,16 @@ type event struct{ op, x, y int }
 
 var events []event
 
-func mkEvents() {
+// mkEvents: single-node operations over all 8 targets; stuff([x,y]) over every ordered pair
+// (x may equal y) of the first pairTargets targets.
+func mkEvents(pairTargets int) {
 	for op := opAdd; op <= opStuff1; op++ {
 		for x := 0; x < 8; x++ {
 			events = append(events, event{op, x, -1})
 		}
 	}
-	for x := 0; x < 8; x++ {
-		for y := 0; y < 8; y++ {
+	for x := 0; x < pairTargets; x++ {
+		for y := 0; y < pairTargets; y++ {
 			events = append(events, event{opStuff2, x, y})
 		}
 	}
@@ -260,18 +262,22 @@ func (s snap) invariants() (out []broken) {
 		if len(b.Entries) > bucketSize {
 			out = append(out, broken{"bucket-overfull", fmt.Sprintf("bucket %d holds %d entries", b.Index, len(b.Entries))})
 		}
-		seen := map[dht.NodeID]bool{}
-		for _, e := range b.Entries {
+		for i, e := range b.Entries {
+			dup := false
+			for _, f := range b.Entries[:i] {
+				if e != nil && f != nil && f.ID == e.ID {
+					dup = true
+				}
+			}
 			switch {
 			case e == nil:
 				out = append(out, broken{"nil-entry", fmt.Sprintf("bucket %d holds a nil entry", b.Index)})
 				continue
 			case e.ID == selfID:
 				out = append(out, broken{"self-present", fmt.Sprintf("the local node is an entry of bucket %d", b.Index)})
-			case seen[e.ID]:
+			case dup:
 				out = append(out, broken{"duplicate-entry", fmt.Sprintf("bucket %d holds %s twice", b.Index, name(e))})
 			}
-			seen[e.ID] = true
 			if d := distOf(e.ID); d != b.Index && e.ID != selfID {
 				out = append(out, broken{"wrong-distance", fmt.Sprintf("%s (log-distance %d) is an entry of bucket %d", name(e), d, b.Index)})
 			}
@@ -404,19 +410,40 @@ type result struct {
 	changed  bool
 }
 
-func step(sd int, evs []int, e int) result {
-	t, p := replay(sd, evs)
-	if p != nil {
-		return result{panicked: p}
+// expand applies every event to the state reached by history (sd, evs). The state is rebuilt by
+// replaying the whole history on a fresh table with the real functions; the rebuilt table is used
+// for the next event as well only if the previous event left the rendering of the table's private
+// state unchanged (such an event performed no write or rewrote identical values).
+func expand(sd int, evs []int) []result {
+	rs := make([]result, len(events))
+	var t *dht.Table
+	var pre snap
+	var preDigest string
+	for e := range events {
+		if t == nil {
+			var p interface{}
+			if t, p = replay(sd, evs); p != nil {
+				rs[e] = result{panicked: p}
+				t = nil
+				continue
+			}
+			pre = observe(t)
+			preDigest = pre.digest()
+		}
+		br := branch(pre, seeds[sd], events[e])
+		if p := apply(t, seeds[sd], events[e]); p != nil {
+			rs[e] = result{panicked: p, branch: br}
+			t = nil
+			continue
+		}
+		post := observe(t)
+		d := post.digest()
+		rs[e] = result{digest: d, broken: post.invariants(), branch: br, changed: d != preDigest}
+		if d != preDigest {
+			t = nil
+		}
 	}
-	pre := observe(t)
-	br := branch(pre, seeds[sd], events[e])
-	if p := apply(t, seeds[sd], events[e]); p != nil {
-		return result{panicked: p, branch: br}
-	}
-	post := observe(t)
-	d := post.digest()
-	return result{digest: d, broken: post.invariants(), branch: br, changed: d != pre.digest()}
+	return rs
 }
 
 func describe(sd int, evs []int) []string {
@@ -455,7 +482,9 @@ func main() {
 	run := ev.Start("C34", "model_checking")
 	population()
 	mkSeeds()
-	mkEvents()
+	pairTargets := run.Pick(5, 8)
+	mkEvents(pairTargets)
+	run.Set("stuff_pair_targets", pairTargets)
 	for _, n := range append(append([]*dht.Node{}, nodesA...), nodesB...) {
 		distCache[n.ID] = dist(selfSha, sha(n.ID))
 	}
@@ -521,11 +550,7 @@ func main() {
 					defer wg.Done()
 					for i := range jobs {
 						sd, evs := history(part[i])
-						rs := make([]result, len(events))
-						for e := range events {
-							rs[e] = step(sd, evs, e)
-						}
-						res[i] = rs
+						res[i] = expand(sd, evs)
 					}
 				}()
 			}
